@@ -414,7 +414,6 @@ def body_trajectory(c, which):
         res.nontrivial = moved
         if not err <= 1e-10 * S:
             return res.fail("mismatch", {"err": err, "scale": S, "amp": amp, "q": q1.tolist(), "p": p1.tolist(), "q_ref": ref["q"].tolist(), "p_ref": ref["p"].tolist()})
-        # the caller's momentum must not be modified in place
         return res
     # reversal: continue from the state the integrator left in the parameters
     p2 = integ(b.joint, b.params, torch.tensor((-p1).tolist()), minv_t)
@@ -859,9 +858,9 @@ def subchecks(tier):
         Sub("differential_phylo", body_differential, strategy=lambda: cases(targets=ph, phylo_max_L=30), quick=32, thorough=800, pretags=pretags),
         Sub("reversal", body_reversal, strategy=lambda: cases(targets=toy), quick=400, thorough=20000, pretags=pretags),
         Sub("reversal_phylo", body_reversal, strategy=lambda: cases(targets=ph, phylo_max_L=30), quick=24, thorough=600, pretags=pretags),
-        Sub("volume", body_volume, strategy=lambda: cases(targets=toy, max_L=12 if q else 30), quick=60, thorough=5000, pretags=pretags),
+        Sub("volume", body_volume, strategy=lambda: cases(targets=toy, max_L=12 if q else 30), quick=60, thorough=3000, pretags=pretags),
         Sub("volume_phylo", body_volume, strategy=lambda: cases(targets=ph, phylo_max_L=4), quick=8, thorough=160, pretags=pretags),
-        Sub("energy", body_energy, strategy=lambda: cases(targets=toy, eps_lo=4e-3, max_L=16 if q else 30), quick=200, thorough=15000, pretags=pretags),
+        Sub("energy", body_energy, strategy=lambda: cases(targets=toy, eps_lo=4e-3, max_L=16 if q else 30), quick=200, thorough=10000, pretags=pretags),
         Sub("energy_phylo", body_energy, strategy=lambda: cases(targets=ph, phylo_max_L=10, eps_lo=4e-3), quick=16, thorough=320, pretags=pretags),
         Sub("operator", body_operator, strategy=lambda: cases(targets=toy, operator=True), quick=400, thorough=20000, pretags=pretags),
         Sub("operator_phylo", body_operator, strategy=lambda: cases(targets=ph, phylo_max_L=20, operator=True), quick=24, thorough=600, pretags=pretags),
